@@ -170,7 +170,11 @@ def run(rep, tier):
             ("c17", ["uf", vec, 100 if quick else 0, 120 if quick else 3000, wd / "uf.ndjson", sd], None)]
     # systematic path-shaped constant-equation families (deep proof-forest paths: 6-7 constants, 5-6 merges), raw class and wrapper
     jobs.append(("c17", ["chains", wd / "chain_core.ndjson", wd / "chain_hol.ndjson", sd, 4, 150 if quick else 1500, 100 if quick else 400], None))
-    traces = ["core", "hol", "holrand", "holq", "corerand", "uf", "chain_core", "chain_hol"]
+    # spanning trees of constant equations over 6-8 constants (sub-forests joined pairwise; every prefix) on both levels, and all
+    # orders of diagonal-application sets f(x,x)=y with connecting constant equations on the raw class
+    jobs.append(("c17", ["forests", wd / "forest_core.ndjson", wd / "forest_hol.ndjson", sd, 400 if quick else 6000, 8 if quick else 150,
+                         60 if quick else 600], None))
+    traces = ["core", "hol", "holrand", "holq", "corerand", "uf", "chain_core", "chain_hol", "forest_core", "forest_hol"]
     for name, vf, mx, every in extra:
         jobs.append(("c17", ["core", vf, wd / ("core_%s.ndjson" % name), sd, mx, every, 1 if name in ("wide", "c4", "chain") else 0], None))
         traces.append("core_" + name)
@@ -243,10 +247,13 @@ def run(rep, tier):
         require(tr["uf"]["nontrivial"] >= 50 and tr["core_c4"]["nontrivial"] >= 150, "C17: too few union-find / 4-constant events examined")
         require(fresh_q >= 20000 and fresh_true >= 1000 and allpt_ok >= 300,
                 "C17: queries on never-added terms / proofs from proof terms not exercised %s" % rep.notes["counts"])
+        diag = sum(1 for e in events["forest_core"] if sum(1 for q in e["hist"] if q[0] == "f" and q[1] == q[2]) >= 2)
+        require(tr["forest_core"]["nontrivial"] >= 2000 and diag >= 900 and tr["forest_hol"]["nontrivial"] >= 500,
+                "C17: forest / diagonal-application families not exercised")
         require(tr["chain_core"]["nontrivial"] >= 600 and deep >= 300 and deep_hol >= 300,
                 "C17: deep proof-forest paths not exercised %s" % rep.notes["counts"])
     # ------------------------------------------------------------------ binding self-tests: corrupt one recorded field
-    bad = {"TestComplete": [], "TestSound": [], "ExplainEntails": [], "ExplainMerged": [], "HolTest": [], "HolStates": [], "HolHyps": [],
+    bad = {"TestComplete": [], "TestSound": [], "ExplainYields": [], "ExplainEntails": [], "ExplainMerged": [], "HolTest": [], "HolStates": [], "HolHyps": [],
            "HolGapFree": [], "UfPartition": []}
     tid = [9 * 10 ** 8]
 
@@ -266,6 +273,8 @@ def run(rep, tier):
         if missing and len(bad["TestSound"]) < 3:
             corrupt(e, "TestSound")["teq"].append(missing[0])
         one = [x for x in e["explains"] if x[2] == "ok" and len(x[3]) == 1]
+        if one and len(bad["ExplainYields"]) < 3:
+            corrupt(e, "ExplainYields")["explains"] = [[one[0][0], one[0][1], "raised:AssertionError", []]]
         if one and len(bad["ExplainEntails"]) < 3:
             corrupt(e, "ExplainEntails")["explains"] = [[one[0][0], one[0][1], "ok", []]]
             foreign = [["f", x, y, z] for x in e["consts"] for y in e["consts"] for z in e["consts"] if ["f", x, y, z] not in e["hist"]]
